@@ -14,10 +14,21 @@ class C11(vlib.PropertyCheck):
                        'termination, spawning and the ledger compared), lines at and over the 20480-byte limit, NUL bytes, missing '
                        'final newline, up to 600 unmatched begin lines, tables across every doubling, init..free cycles 1-5 deep '
                        'with the heap ledger read after every free, spifconf_find_file on lengths up to 3*PATH_MAX and beyond 65536, '
+                       'spifconf_shell_expand on texts whose $NAME / ~ / %get(k) name environment values, HOME and stored values of 0, 1, '
+                       '127..129, 255..257, 4095..4097 and CONFIG_BUFF-3..CONFIG_BUFF+1 bytes (thorough: every power of two and its neighbours, '
+                       '65535..65537) outside calls, inside the argument of every built-in, in nested calls, in quotes, in backquote commands, '
+                       'doubled and at the end of an almost full line, directly and as lines of a parsed file; %dirscan on directories the '
+                       'harness creates (0 to 2100 regular files, names of 1-255 characters whose names and blanks add up to less than, exactly '
+                       'and more than CONFIG_BUFF, sub-directories, dangling links, FIFOs) with the listing read back; %exec and backquotes with '
+                       'the intercepted command printing 0 to CONFIG_BUFF+1 (65537) bytes, commands around the length at which %exec refuses, '
                        'spiftool_temp_file 1000 times; a case is non-trivial when the model does not fault and the case is not a '
                        'repetition; distinct = distinct case lines')
     assumptions = ['value expansion and the variable store are parameters of the model (property C10); for texts with expansion '
                    'characters only faults, termination, spawning and the ledger are compared',
+                   'the environment, directory contents and the output of commands are the outside world: the harness sets them up '
+                   '(tokens E, D, O) and decides the operations x (expansion of a text: sanitizers, in place, terminated inside the '
+                   'CONFIG_BUFF block) and s (%dirscan: every word a regular file of the directory, in readdir order, none twice, none '
+                   'missing when all fit) on the implementation side; the directory is not changed while it is scanned',
                    'handlers do not touch the parser\'s own state',
                    'spiftool_get_word / spiftool_get_pword are the models of property C12; their theorems (LV.Split.SplitProofs, '
                    'SplitFrame: totality, frame, exactness) are used, not assumed',
@@ -51,12 +62,16 @@ class C11(vlib.PropertyCheck):
               'absence of state after free are compared. The tie: extracted model vs ASan/UBSan build with system, popen, fork, '
               'vfork, exec*, posix_spawn* intercepted at link time, on structured-random and fully random byte files, 600 unmatched '
               'begins, %include chains up to 600 deep, table sweeps, 1-5 init..free cycles, path lengths up to 3*PATH_MAX and beyond '
-              '65536.'),
+              '65536; and on the expansion\'s outside world - environment values, HOME, stored values, directory listings and command '
+              'outputs of every buffer-size class inside and outside (nested) %calls, with the ledger read after the free: these cases '
+              'are decided on the implementation side only (sanitizers, result terminated inside its CONFIG_BUFF block, %dirscan '
+              'listing read back from the directory, no block left after spifconf_free_subsystem).'),
         design_ref='DESIGN.md section 7, C11')
 
     def gen(self, tier, rng):
         quick = tier == 'quick'
         cases = []
+        cases += L.gen_world(rng, tier)
         cases += L.gen_open(rng)
         cases += L.gen_unmatched(rng, [159, 160, 161, 255, 256, 257, 300, 600] if quick else [1, 19, 20, 21, 159, 160, 161, 254, 255, 256, 257, 258, 300, 511, 512, 513, 600])
         cases += L.gen_chain([159, 160, 161, 255, 256, 257, 300] if quick else [9, 10, 11, 19, 20, 21, 79, 80, 81, 159, 160, 161, 254, 255, 256, 257, 258, 300, 511, 512, 513, 600])
@@ -76,12 +91,13 @@ class C11(vlib.PropertyCheck):
     def extra_steps(self, ctx):
         rng = ctx['rng']
         cases = (L.gen_unmatched(rng, [160, 256, 300]) + L.gen_chain([160, 256, 300]) + L.gen_tables(rng, [20, 160, 255]) +
-                 L.gen_open(rng) + ['find 4095 -1 1,2', 'find 2047 2047 1,2', 'find 10 5 4077,4078,4079,69613,69614'])
+                 L.gen_open(rng) + ['find 4095 -1 1,2', 'find 2047 2047 1,2', 'find 10 5 4077,4078,4079,69613,69614'] +
+                 L.gen_world_dirs(rng, 'quick')[:60:3] + L.gen_world_values(rng, [300, L.CB - 1])[::7])
         return L.impl_faults(self, ctx, cases)
 
     def search_gen(self, tier, rng):
         return (L.gen_unmatched(rng, [159, 160, 161, 255]) + L.gen_tables(rng, [19, 20, 159, 160, 161, 255]) +
-                L.gen_lifecycle(rng, 100) + L.gen_random_files(rng, 100, quiet=False) + L.gen_open(rng))
+                L.gen_lifecycle(rng, 100) + L.gen_random_files(rng, 100, quiet=False) + L.gen_open(rng) + L.gen_world(rng, 'quick'))
 
     # level A: everything but the raw counters (a quiet parse prints q:ok unless a process was created for text
     # that contains no backquote, %exec or %preproc - the harness decides that, the expansion is not modelled there)
